@@ -78,22 +78,39 @@ def eval_grid(bars, impl_depths):
     return np.unique(np.concatenate([u, mids, [u[0] - span, u[-1] + span, u[0] - 0.37 * span, u[-1] + 0.41 * span]]))
 
 
-def compare_exact(bars, depths, tol):
-    """complete comparison of an exact landscape's critical pairs with the definition.
+def compare_exact(bars, depths, tol, max_points=60000):
+    """comparison of an exact landscape's critical pairs with the definition: complete (every breakpoint of either side,
+    every midpoint) when that grid has at most max_points abscissae; for larger diagrams a deterministic sample of it (all of
+    the implementation's breakpoints first).  Evaluated in column chunks so that memory stays bounded.
     returns (first_wrong_depth_index or None, witness dict)"""
     ts = eval_grid(bars, depths)
-    want = lam_all(bars, ts)                     # (n, T)
+    sampled = False
+    if len(ts) > max_points:
+        sampled = True
+        own = np.unique(np.array([float(p[0]) for dp in depths for p in dp if math.isfinite(float(p[0]))]))
+        r = np.random.default_rng([len(ts), len(own)])
+        if len(own) > max_points // 2:
+            own = r.choice(own, max_points // 2, replace=False)
+        rest = r.choice(ts, max_points - len(own), replace=False)
+        ts = np.unique(np.concatenate([own, rest, ts[:2], ts[-2:]]))
     n = len(bars)
     K = max(n, len(depths))
-    for k in range(K):
-        w = want[k] if k < n else np.zeros(len(ts))
-        g = pl_eval(depths[k], ts) if k < len(depths) else np.zeros(len(ts))
-        bad = np.nonzero(~(np.abs(g - w) <= tol))[0]
-        if len(bad):
-            i = int(bad[0])
-            return k, {"depth": k + 1, "t": float(ts[i]), "got": float(g[i]), "want": float(w[i]),
-                       "n_bad_points": int(len(bad))}
-    return None, {}
+    chunk = max(1, 4000000 // max(n, 1))
+    best = None
+    for c0 in range(0, len(ts), chunk):
+        tc = ts[c0:c0 + chunk]
+        want = lam_all(bars, tc)                     # (n, T)
+        for k in range(K if best is None else best[0] + 1):
+            w = want[k] if k < n else np.zeros(len(tc))
+            g = pl_eval(depths[k], tc) if k < len(depths) else np.zeros(len(tc))
+            bad = np.nonzero(~(np.abs(g - w) <= tol))[0]
+            if len(bad):
+                i = int(bad[0])
+                if best is None or k < best[0]:
+                    best = (k, {"depth": k + 1, "t": float(tc[i]), "got": float(g[i]), "want": float(w[i]),
+                                "n_bad_points": int(len(bad)), "sampled_grid": sampled})
+                break
+    return best if best is not None else (None, {})
 
 
 def sweep_reference(bars):
